@@ -49,6 +49,14 @@ def check(chk):
     unsafe = [c for c in f.calls() if (dotted(c.func) or "") in ("os.remove", "os.unlink", "os.rename", "shutil.move", "os.rmdir")]
     chk.ob("PAIR-17", "the finished temp file replaces the target in one step (no remove / rename of the target in FileManager.save)", not unsafe,
            f.where(unsafe[0]) if unsafe else f.where(), detail=", ".join(src(c)[:40] for c in unsafe), construct=f.ident, text="target removed before the move")
+    # ... and every save is attempted: FileManager.save gives up only for an unknown file type (inside the handler of the interface lookup);
+    # nothing it finds on disk - a temp file left by an attempt that died - makes it refuse, or one failed write blocks every later one
+    raises_ = [n for n in cfg.nodes if n.kind == "stmt" and isinstance(n.ast, ast.Raise)]
+    handlers_ = {id(y) for h in ast.walk(f.node) if isinstance(h, ast.ExceptHandler) for st in h.body for y in ast.walk(st)}
+    early = [n for n in raises_ if id(n.ast) not in handlers_]
+    chk.ob("PAIR-17", "FileManager.save refuses a save only for an unknown file type (never because of files an earlier attempt left)", not early,
+           f.where(early[0].ast) if early else f.where(), detail="guards %s" % sorted(cfg.guards_at(early[0].id).items()) if early else "", construct=f.ident,
+           text="save refused before it was attempted")
     sn, sc = saves[0]
     tmp = src(sc.args[0]) if sc.args else ""
     chk.ob("PAIR-17", "the interface writes to a temporary file, not to the data file itself", tmp not in ("filename", "") , f.where(sc),
@@ -442,6 +450,7 @@ def expiry_restart_is_written(chk, repo, rule="FLOW-6"):
 def battery():
     from sa.battery import M
     return [
+        M("a leftover temp file blocks every later save", "mpf/core/file_manager.py", "            temp_file = os.path.dirname(filename) + os.sep + \"_\" + os.path.basename(filename)\n", "            temp_file = os.path.dirname(filename) + os.sep + \"_\" + os.path.basename(filename)\n            if os.path.exists(temp_file):\n                raise AssertionError(\"busy\")\n", "PAIR-17"),
         M("target removed before the temp file is moved in", "mpf/core/file_manager.py", "            os.replace(temp_file, filename)", "            if os.path.exists(filename):\n                os.remove(filename)\n            os.rename(temp_file, filename)", "PAIR-17"),
         M("removed variable not removed on disk", "mpf/core/machine_vars.py", "            del self.machine_vars[name]\n            self._write_machine_vars_to_disk()", "            del self.machine_vars[name]\n            self._write_machine_var_to_disk(name)", "FLOW-6"),
         M("setting marked persistent after it was set", "mpf/core/settings_controller.py", "        self.machine.variables.configure_machine_var(name=self._settings[setting_name].machine_var, persist=True)\n        self.machine.variables.set_machine_var(name=self._settings[setting_name].machine_var, value=value)", "        self.machine.variables.set_machine_var(name=self._settings[setting_name].machine_var, value=value)\n        self.machine.variables.configure_machine_var(name=self._settings[setting_name].machine_var, persist=True)", "FLOW-6"),
